@@ -1,6 +1,12 @@
 """Registry of claimed checks (drives tools/mkmanifest.py)."""
 
 REGISTRY = {
+    "C07": {
+        "text": "38 throw sites (throw of every value type, runtime TypeError/ReferenceError/RangeError/SyntaxError from operators and raising built-ins, throws inside code run by built-ins: callbacks, comparators, accessors, conversions, eval, call/apply) x 12 handler placements (same function, caller, across one and two native frames, finally-only, rethrow, throw from catch, throw/return from finally, mid-expression, in a loop, none), the try-ish cells of the skeleton grid in every expression context, and seeded random instrumented try trees are run on the real engine. Deciding monitors: node differential on the ordered log and outcome; an offline exactly-once checker over E/C/F/L events per try activation (needs no reference); error-object probes (instanceof constructor and Error, name, message type); absolute and shifted lineNumber/columnNumber for thrown and runtime errors; uncaught throws must surface as JSError whose text contains the thrown message/primitive.",
+        "design_ref": "DESIGN.md 3/C07",
+        "note": "Trusts node v20 for unwinding order; messages of engine-generated errors are not compared, only class, name and catchability.",
+        "technique": "runtime differential monitor (node reference) + offline exactly-once checker over recorded try/catch/finally event logs + shift metamorphic oracle on error locations",
+    },
     "C02": {
         "text": "Recursion of 36 shapes (direct, mutual, methods, constructors, every callback-taking built-in, accessors, conversions, call/apply/bind, eval) under memory limits from 5 kB to 10 MB must end in MemoryLimitError while a hook tracks the accounted usage (never above M), call depth and host recursion depth. Bounded bodies - the exhaustive control-flow skeleton grid (construct x exit kind x enclosing construct x expression context, inside a function and inline) - run N times with a marker each iteration whose Python side reads the live VM: operand-stack, call-stack, handler-stack and native depth must be identical at every iteration and back to empty after the loop; N up to 1000 (quick) / 30000 (thorough) under M = 20 kB must succeed; an icontract postcondition on VM.run checks all stacks empty on return.",
         "design_ref": "DESIGN.md 3/C02",
